@@ -132,7 +132,52 @@ static void c04_child(const void *job, size_t n) {
 	res_printf("S %llx %llx\n", (unsigned long long) h.a, (unsigned long long) h.b);
 	res_finish();
 }
-void c04_register(void) { harness_register("c04.hist", c04_child); }
+
+/* ---------------------------------------------------------------- c04.sched (E1): release of a stall under concurrency
+ * Variant 0: node 1 is stalled, messages for 1, 1.1 and 1.2 are held.  Variant 1: nested — node 1 and node 1.1 are stalled,
+ * 1.1 has already been released (its waiters hang on 1).  Then, concurrently: the receiver processes MSG_STALL=0 from node 1
+ * while two application threads submit further messages for 1.1 / 1.2 and for 1.  Every schedule with <= 2 (thorough 3)
+ * preemptions: afterwards everything submitted is on the wire exactly once, per destination in submission order (the
+ * sequence numbers are consecutive), nothing is held, and nothing was written before the release notice had been read. */
+static const t_bidib_node_address A1 = {1, 0, 0}, A11 = {1, 1, 0}, A12 = {1, 2, 0};
+static void *cs_ta(void *arg) { (void) arg; bidib_send_sys_ping(A11, 0x51, 0); bidib_send_sys_ping(A12, 0x52, 0); bidib_flush(); return NULL; }
+static void *cs_tb(void *arg) { (void) arg; bidib_send_sys_ping(A1, 0x61, 0); bidib_send_sys_ping(A11, 0x62, 0); bidib_flush(); return NULL; }
+static void c04_sched_child(const void *job, size_t n) {
+	vs_dev_t devs[VS_MAXDEV]; int nd; size_t pl; const uint8_t *p = job_parse(job, n, devs, &nd, &pl);
+	int variant = p[0];
+	hx_child_begin(devs, nd, 1, NULL, 0, 0);
+	if (hx_start_debug(0)) res_infra("start failed");
+	hx_quiesce();
+	uint8_t on = 1, off = 0;
+	hx_feed_msg(NADDR[1], 0, MSG_STALL, &on, 1);
+	if (variant == 1) hx_feed_msg(NADDR[2], 0, MSG_STALL, &on, 1);
+	bidib_send_sys_ping(A1, 1, 0); bidib_send_sys_ping(A11, 2, 0); bidib_send_sys_ping(A12, 3, 0); bidib_send_sys_ping(A11, 4, 0); bidib_flush(); hx_quiesce();
+	if (variant == 1) { hx_feed_msg(NADDR[2], 0, MSG_STALL, &off, 1); bidib_flush(); hx_quiesce(); }
+	if (env_out_len() != 0) res_violation("sent-into-stalled-subtree stalled=ancestor", "bytes were written while node 1 is stalled (set-up of c04.sched)");
+	size_t in_base = env_bytes_consumed(); uint8_t m[16], f[40]; int ml = rc_build_msg(m, NADDR[1], 0, MSG_STALL, &off, 1); size_t fl = rc_frame(f, m, (size_t) ml, 1); env_push_quiet(f, fl);
+	size_t release_end = in_base + fl;
+	vs_window(1);
+	int t1 = vs_spawn(cs_ta, NULL), t2 = vs_spawn(cs_tb, NULL); vs_join_tid(t1); vs_join_tid(t2); hx_quiesce();
+	vs_window(0);
+	bidib_flush(); hx_quiesce();
+	uint8_t *q; while ((q = bidib_read_message())) free(q);
+	for (int w = 0; w < env_nwrites(); w++) if (env_writes()[w].len && env_writes()[w].consumed < release_end) { res_violation("sent-into-stalled-subtree stalled=ancestor", "write %d happened before the library had read the release notice of node 1", w); break; }
+	static rc_pkt_t pk[64]; char err[200]; int np = rc_decode_strict(env_out(), env_out_len(), pk, 64, err, sizeof err);
+	hx_hash_t h; hx_hash_init(&h);
+	if (np < 0) res_violation("wire-malformed", "%s", err);
+	else { int cnt[3] = {0, 0, 0}, last[3] = {0, 0, 0};
+		for (int i = 0; i < np; i++) for (int j = 0; j < pk[i].nmsgs; j++) { rc_msg_t *mm = &pk[i].msgs[j]; int k = !memcmp(mm->addr, NADDR[1], 4) ? 0 : !memcmp(mm->addr, NADDR[2], 4) ? 1 : !memcmp(mm->addr, NADDR[4], 4) ? 2 : -1;
+			if (k < 0) { res_violation("wire-unknown-destination", "message to %02x.%02x.%02x", mm->addr[0], mm->addr[1], mm->addr[2]); continue; }
+			cnt[k]++; if (mm->seq != last[k] + 1) res_violation("order: held traffic is not transmitted exactly once in per-node submission order", "node %s: sequence %d after %d", k == 0 ? "1" : k == 1 ? "1.1" : "1.2", mm->seq, last[k]); last[k] = mm->seq;
+			hx_hash_add(&h, mm->addr, 3); }
+		static const int EXP[3] = {2, 4, 2};
+		for (int k = 0; k < 3; k++) if (cnt[k] != EXP[k]) { vx_node_info_t ni; int def = vx_node_info(NADDR[k == 0 ? 1 : k == 1 ? 2 : 4], &ni) ? ni.n_deferred : -1;
+			res_violation("stranded-after-unstall: node not stalled, budget free, held message not transmitted", "node %s: %d of %d messages on the wire, %d still held", k == 0 ? "1" : k == 1 ? "1.1" : "1.2", cnt[k], EXP[k], def); } }
+	hx_emit_ledger_violations("C04");
+	res_printf("O %llx %llx\n", (unsigned long long) h.a, (unsigned long long) h.b);
+	hx_emit_trace(); res_finish();
+}
+void c04_register(void) { harness_register("c04.hist", c04_child); harness_register("c04.sched", c04_sched_child); }
 int c04_run(const char *tier) {
 	int thorough = !strcmp(tier, "thorough");
 	uint8_t param[1] = {(uint8_t) thorough};
@@ -140,6 +185,10 @@ int c04_run(const char *tier) {
 	e2_spec_t s = { .harness = "c04.hist", .param = param, .nparam = 1, .nevents = EV_N, .max_depth = d ? atoi(d) : (thorough ? 6 : 5),
 	                .label = "c04.hist", .evname = evname };
 	e2_explore(&s);
+	for (int v = 0; v < 2; v++) { uint8_t sp[1] = {(uint8_t) v}; char label[80]; snprintf(label, sizeof label, "c04.sched %s", v ? "nested stall, inner released first" : "single stall");
+		e1_spec_t es = { .harness = "c04.sched", .param = sp, .nparam = 1, .bound = thorough ? 3 : 2, .label = strdup(label) };
+		e1_explore(&es); long ex = 0; for (int k = 0; k < 8; k++) ex += es.schedules_by_cost[k]; s.execs += ex; s.states += es.distinct_outcomes; s.transitions += es.choice_points; if (!es.exhaustive) s.exhaustive = 0;
+		rep_note("%s: bound=%d completed=%d schedules by cost=[%ld,%ld,%ld,%ld] distinct outcomes=%ld", label, es.bound, es.completed_bound, es.schedules_by_cost[0], es.schedules_by_cost[1], es.schedules_by_cost[2], es.schedules_by_cost[3], es.distinct_outcomes); }
 	rep_count("states", s.states); rep_count("transitions", s.transitions); rep_count("executions", s.execs);
 	rep_count("depth_completed", s.depth_completed); rep_flag("exhaustive", s.exhaustive);
 	char sb[256]; size_t o = 0; for (int i = 0; i <= s.depth_completed + 1 && i < 16; i++) o += (size_t) snprintf(sb + o, sizeof sb - o, "%ld ", s.states_by_depth[i]);
